@@ -90,7 +90,8 @@ def validate_case(case, prop_id, out_dir, K=None, timeout_ms=None, range_bound=3
                        'real_rows': None, 'expected_rows': None}
         continue
       ref = refsem.Ref(case.prog, D.store(), strings, range_bound, macros=case.macros,
-                       depths=case.depths, compaction=compaction, list_nothing=list_nothing)
+                       depths=case.depths, compaction=compaction, list_nothing=list_nothing,
+                       order_specs=getattr(case, 'order_specs', None))
       try:
         rrel = ref.relation(pred)
       except Unsupported as e:
@@ -132,7 +133,11 @@ def validate_case(case, prop_id, out_dir, K=None, timeout_ms=None, range_bound=3
       elif wit != 'sat':
         r['witness_unknown'] = True
       base.push()
-      diff = V.multiset_diff(side.rel, rrel)
+      ordered = pred in getattr(case, 'ordered_preds', ())
+      if ordered:
+        diff = V.sequence_diff(side.rel, rrel)
+      else:
+        diff = V.multiset_diff(side.rel, rrel)
       base.add(V.as_bool(diff))
       verdict = e1.check(base, st)
       r['solver_s'] = st.solver_s
@@ -148,8 +153,8 @@ def validate_case(case, prop_id, out_dir, K=None, timeout_ms=None, range_bound=3
         model_ref = V.concretize_rel(m, rrel, strings)
         modes = e1.col_modes(rrel)
         hdr, real_rows = side.run_real(schema, rows)
-        same_model, a, b = e1.compare_concrete(real_rows, model_sql, modes)
-        same_ref, a2, b2 = e1.compare_concrete(real_rows, model_ref, modes)
+        same_model, a, b = e1.compare_concrete(real_rows, model_sql, modes, ordered=ordered)
+        same_ref, a2, b2 = e1.compare_concrete(real_rows, model_ref, modes, ordered=ordered)
         if not same_model:
           r['status'] = 'harness_error'
           r['why'] = 'SQL model disagrees with real SQLite on the counterexample'
